@@ -6,6 +6,7 @@ import (
 	"fmt"
 	"io"
 	"os"
+	"runtime/pprof"
 	"strconv"
 	"sync/atomic"
 	"testing"
@@ -72,13 +73,16 @@ func TestWorker(t *testing.T) {
 	current.Store("")
 	// real-time watchdog: a run that takes more than the limit is a harness
 	// problem (exit 3), never a violation.
-	limit := time.Duration(envInt("ZSIM_RUN_LIMIT_S", 90)) * time.Second
+	limit := time.Duration(envInt("ZSIM_RUN_LIMIT_S", 60)) * time.Second
 	go func() {
 		for {
 			time.Sleep(time.Second)
 			st := runStart.Load()
 			if st != 0 && time.Since(time.Unix(0, st)) > limit {
 				fmt.Fprintf(os.Stderr, "WATCHDOG: run %v exceeded %v\n", current.Load(), limit)
+				if os.Getenv("ZSIM_WATCHDOG_STACKS") != "" {
+					pprof.Lookup("goroutine").WriteTo(os.Stderr, 2)
+				}
 				if outPath != "" {
 					os.WriteFile(outPath+".watchdog", []byte(fmt.Sprint(current.Load())), 0644)
 				}
